@@ -65,12 +65,12 @@ def rule_R15_3(ctx):
         return r
     for f in fs:
         evs = [c for c in f.calls() if not c.is_ptr
-               and any("ast::RawExpr" in t and t.startswith("&") for t in c.argtys)
+               and any(__import__("anchors").mentions_expr(prog, t) and t.startswith("&") for t in c.argtys)
                and (c.dstty or "").startswith("std::result::Result<eval::value::SourcedValue")]
         if not evs:
             r.unproven.append("%s: no expression evaluation found" % f.path)
         for c in evs:
-            ai = [i for i, t in enumerate(c.argtys) if "ast::RawExpr" in t][0]
+            ai = [i for i, t in enumerate(c.argtys) if __import__("anchors").mentions_expr(prog, t)][0]
             o = pv.origins(f, c.args[ai], ("*",))
             srcs = set()
             for x in o:
